@@ -13,7 +13,7 @@ for i in range(1, 21):
     runs = []
     for r in cov.get("runs", []):
         tag = r["engine"]
-        fl = [f for f, on in (("-race", r.get("race")), ("netns", r.get("netns"))) if on]
+        fl = [f for f, on in (("-race", r.get("race")), ("netns", r.get("netns")), ("GOARCH=" + r.get("goarch", ""), r.get("goarch")), (" ".join(r.get("build_flags", [])), r.get("build_flags"))) if on]
         if fl:
             tag += " (" + ", ".join(fl) + ")"
         runs.append("%s: %dx%d" % (tag, r["batches"], r["cases_per_batch"]))
